@@ -378,7 +378,76 @@ func checkMsgQuiet(m wm.Msg, key string, nontrivial bool) error {
 	return nil
 }
 
+// RDATA of exactly 65535 octets packs, 65536 must be refused (never wrapped)
+type bigCase struct {
+	Type uint16
+	Len  int
+}
+
+func checkBig(c bigCase) error {
+	r := wm.Rec{Name: wm.MustName("big.example."), Type: c.Type, Class: 1, TTL: 1}
+	switch c.Type {
+	case wm.TTXT:
+		var l [][]byte
+		left := c.Len
+		for left > 0 {
+			k := min(left-1, 255)
+			if left-1-k == 1 {
+				k--
+			}
+			l = append(l, bytes.Repeat([]byte{'t'}, k))
+			left -= 1 + k
+		}
+		r.Fields = []wm.Field{{K: wm.Strs, L: l}}
+	case wm.TDNSKEY:
+		r.Fields = []wm.Field{{K: wm.U16, U: 257}, {K: wm.U8, U: 3}, {K: wm.U8, U: 8}, {K: wm.Rest, B: bytes.Repeat([]byte{0x5a}, c.Len)}}
+		c.Len += 4
+	default:
+		r.Fields = []wm.Field{{K: wm.Rest, B: bytes.Repeat([]byte{0x5a}, c.Len)}}
+	}
+	pbt.Note([]byte(fmt.Sprint(c.Type, c.Len)), true, fmt.Sprintf("rdlen=%d", c.Len))
+	rr, err := wm.ToLib(r)
+	if err != nil {
+		return pbt.Errf("harness: %v", err)
+	}
+	m := &dns.Msg{}
+	m.Answer = []dns.RR{rr}
+	p, perr := m.Pack()
+	if c.Len > 65535 {
+		if perr == nil {
+			return pbt.Errf("a %s record with %d octets of RDATA was packed (%d octets) instead of being refused", typeName(c.Type), c.Len, len(p))
+		}
+		return nil
+	}
+	if perr != nil {
+		return pbt.Errf("a %s record with %d octets of RDATA (legal) cannot be packed: %v", typeName(c.Type), c.Len, perr)
+	}
+	want, _ := wm.Encode(wm.Msg{An: []wm.Rec{r}})
+	if !bytes.Equal(p, want) {
+		return pbt.Errf("%s with %d octets of RDATA: %s", typeName(c.Type), c.Len, hexdiff(p, want))
+	}
+	var u dns.Msg
+	if err := u.Unpack(p); err != nil {
+		return pbt.Errf("%s with %d octets of RDATA does not unpack: %v", typeName(c.Type), c.Len, err)
+	}
+	p2, err := u.Pack()
+	if err != nil || !bytes.Equal(p2, p) {
+		return pbt.Errf("%s with %d octets of RDATA does not survive unpack/pack (err=%v)", typeName(c.Type), c.Len, err)
+	}
+	return nil
+}
+
 func init() {
+	pbt.RegisterEnum(pbt.Enum[bigCase]{Name: "rdata-size-limit", Exhaustive: true, Each: func(emit func(bigCase)) {
+		for _, t := range []uint16{wm.TNULL, wm.TTXT, 65281, wm.TPrivate, wm.TOPENPGPKEY, wm.TDNSKEY} {
+			for _, l := range []int{65534, 65535, 65536, 65537, 70000} {
+				if t == wm.TDNSKEY {
+					l -= 4 // flags, protocol, algorithm precede the key
+				}
+				emit(bigCase{Type: t, Len: l})
+			}
+		}
+	}, Check: checkBig})
 	pbt.Probe("nordata-repack", func() error {
 		m := wm.Msg{ID: 1, Flags: 0x2800, Q: []wm.Question{{Name: wm.MustName("example."), Type: 6, Class: 1}},
 			Ns: []wm.Rec{{Name: wm.MustName("a.example."), Type: wm.TMX, Class: 255, NoRdata: true}}}
